@@ -133,9 +133,18 @@ type Failure struct {
 // SaveFailure writes the failing case to $VERIF_FAIL_DIR/<prop>.json. During rapid's
 // shrinking every failing attempt overwrites the file, and rapid re-runs the minimal
 // case last, so the file ends up holding the shrunk case.
+// InfraMarker in an error text says: a deadline or resource of the harness itself gave out;
+// the case is not saved, so the driver reports the run as inconclusive (exit 2), not as a
+// violation.
+const InfraMarker = "[infrastructure]"
+
 func SaveFailure(prop, part string, c any, err error) {
 	dir := os.Getenv("VERIF_FAIL_DIR")
 	if dir == "" {
+		return
+	}
+	if err != nil && strings.Contains(err.Error(), InfraMarker) {
+		fmt.Printf("INFRASTRUCTURE (not a verdict): %v\n", err)
 		return
 	}
 	raw, merr := json.Marshal(c)
